@@ -110,6 +110,7 @@ func C16(p *load.Prog, r *oblig.Run) {
 	r.Rule("R16.d", "results built by appending are built on a slice the expression made itself (appending to a received slice can write into the caller's backing array)", 4)
 	c16FreshAppend(p, r)
 	c16ReflectSlices(p, r)
+	c16Stateless(p, r)
 	c16Variables(p, r)
 	ops, err := extractOperators(p)
 	if err != nil {
@@ -560,6 +561,11 @@ func c16FreshAppend(p *load.Prog, r *oblig.Run) {
 						return
 					}
 					bad = "a value loaded from " + x.X.String()
+				case *ssa.Const:
+					// the zero reflect.Value (a variable that is assigned before its first use): not a received slice
+					if x.Value != nil {
+						bad = "the constant " + x.String()
+					}
 				default:
 					bad = fmt.Sprintf("%s (%T)", v.String(), v)
 				}
